@@ -149,12 +149,9 @@ def _binding_order(ctx: Ctx, r: RuleResult, pc, sc: FunctionInfo, self_t: Term):
         if not outs:
             r.fail(key, f'no path of sanity_check completes for {M}', sc.where)
             continue
+        full_refs: Set[str] = set()
+        full_dups: Set[str] = set()
         for o in outs:
-            present = {_A: True, _T: True}
-            for g, pol_ in norm_guards(o.guards):
-                nt = none_test(g)
-                if nt is not None and slot_of(nt[0]) in _OPTIONAL:
-                    present[slot_of(nt[0])] = (not nt[1]) if pol_ else nt[1]
             checks: List[Tuple[str, str, Optional[frozenset]]] = []
             for e in o.effects:
                 if not isinstance(e, Loop) or not isinstance(e.iter, Call) or call_name(e.iter) not in ('external_references', 'aliases'):
@@ -176,53 +173,51 @@ def _binding_order(ctx: Ctx, r: RuleResult, pc, sc: FunctionInfo, self_t: Term):
                             checks.append((kind, sl, frozenset(av) if av is not None else None))
                 if any(flow != 'end' for _, flow, _, _ in e.paths):
                     r.fail(key + f':{sl}:early-exit', f'the scan over {call_name(e.iter)}() of {sl} can stop before the last element', sc.where)
-            order = [(sl, frozenset(x for x in av if present.get(x, True))) for sl, av in want if present.get(sl, True)]
+            order = [(sl, frozenset(av)) for sl, av in want]
+            exp_of = dict(order)
             got_refs = [(sl, av) for kind, sl, av in checks if kind == 'refs']
             got_dups = [(sl, av) for kind, sl, av in checks if kind == 'dups']
 
             def show(seq):
                 return ' ; '.join(f'{sl.split(".")[1]}({",".join(sorted(x.split(".")[1] for x in av)) if av is not None else "?"})' for sl, av in seq)
-            # optional events absent on this path may still show (their loops are guarded inside helpers): ignore them
-            got_refs_p = [(sl, frozenset(x for x in av if present.get(x, True)) if av is not None else None) for sl, av in got_refs if present.get(sl, True)]
-            got_dups_p = [(sl, frozenset(x for x in av if present.get(x, True)) if av is not None else None) for sl, av in got_dups if present.get(sl, True)]
-            ok = True
-            # the same event may be scanned once per presence scenario of the optional events (helpers looked through
-            # merge their paths): a scan whose scope lacks only optional events is the scenario without them
-            exp_of = dict(order)
 
             def scenario_ok(sl, av):
+                """the names in scope are the expected ones, possibly without optional events that are absent"""
                 e = exp_of.get(sl)
                 return e is not None and av is not None and av <= e and (e - av) <= _OPTIONAL
-
-            def collapse(seq):
-                out = []
-                for sl, av in seq:
-                    if out and out[-1][0] == sl:
-                        if av is not None and out[-1][1] is not None and len(av) > len(out[-1][1]) and scenario_ok(sl, out[-1][1]):
-                            out[-1] = (sl, av)
-                        elif scenario_ok(sl, av):
-                            continue
-                        else:
-                            out.append((sl, av))
-                    else:
-                        out.append((sl, av))
-                return out
-            got_refs_p = collapse(got_refs_p)
-            got_dups_p = [(sl, av) for sl, av in got_dups_p if not (scenario_ok(sl, av) and av != exp_of.get(sl))]
-            if got_refs_p != order:
+            ok = True
+            # 1. order of the events (an optional event may be missing on a path where it is absent); helpers looked
+            #    through can show the same event once per presence scenario
+            slots_seen: List[str] = []
+            for sl, av in got_refs:
+                if not slots_seen or slots_seen[-1] != sl:
+                    slots_seen.append(sl)
+            exp_slots = [sl for sl, _ in order]
+            it_ = iter(exp_slots)
+            in_order = all(any(sl == e for e in it_) for sl in slots_seen) and all(sl in slots_seen for sl in exp_slots if sl not in _OPTIONAL)
+            if not in_order:
                 ok = False
-                r.fail(key, f'binding order for {M}: references are checked as {show(got_refs_p)}, expected {show(order)} (event(names in scope))', sc.where, show(order), show(got_refs_p))
-            for sl, av in order:
-                if av and (sl, av) not in got_dups_p:
-                    ok = False
-                    r.fail(key + f':{sl}:dups', f'{M}: aliases of {sl} are not checked against the aliases already bound ({sorted(av)}); found {show([d for d in got_dups_p if d[0] == sl])}', sc.where)
-            for sl, av in got_dups_p:
-                exp = dict(order).get(sl)
-                if exp is not None and av is not None and av != exp and av:
-                    ok = False
-                    r.fail(key + f':{sl}:dups-scope', f'{M}: aliases of {sl} are compared with {sorted(av)}, expected {sorted(exp)}', sc.where)
+                r.fail(key, f'binding order for {M}: references are checked as {show(got_refs)}, expected {show(order)} (event(names in scope))', sc.where, show(order), show(got_refs))
+            # 2. every scan uses the expected scope (minus absent optional events)
+            for kind_, seq in (('references', got_refs), ('aliases', got_dups)):
+                for sl, av in seq:
+                    if not scenario_ok(sl, av) and not (kind_ == 'aliases' and av is not None and not av):
+                        ok = False
+                        r.fail(key + f':{sl}:{"dups-" if kind_ == "aliases" else ""}scope', f'{M}: {kind_} of {sl} are compared with {sorted(av) if av is not None else "?"}, expected {sorted(exp_of.get(sl, []))}', sc.where)
+            for sl, av in got_refs:
+                if av == exp_of.get(sl):
+                    full_refs.add(sl)
+            for sl, av in got_dups:
+                if av == exp_of.get(sl):
+                    full_dups.add(sl)
             if ok:
-                r.ok(f'{M} [{guards_repr(o.guards)[:40]}]: {show(got_refs_p)}')
+                r.ok(f'{M} [{guards_repr(o.guards)[:40]}]: {show(got_refs)}')
+        # 3. over all paths: each event is scanned at least once with its full expected scope
+        for sl, av in want:
+            if sl not in full_refs:
+                r.fail(key + f':{sl}:refs', f'{M}: references of {sl} are never checked against all of {sorted(av)} (the aliases bound before it)', sc.where)
+            if av and sl not in full_dups:
+                r.fail(key + f':{sl}:dups', f'{M}: aliases of {sl} are not checked against the aliases already bound ({sorted(av)})', sc.where)
 
 
 def _helpers(ctx: Ctx, r: RuleResult, pc, self_t: Term):
